@@ -166,7 +166,7 @@ def _p12c(ctx):
 
 
 def _p13d(ctx):
-    fn = ctx.fn1(r'^memory::MemoryManager::start_free$')
+    fn = ctx.fn_or_host(r'^memory::MemoryManager::start_free$', 'MemoryManager.epoch', WRITE_OPS, r'^memory::MemoryManager::')
     g = ctx.graph(fn)
     x = g.x
     # overwriting the pending batch: assignment to MemoryManagerInner.tofree
@@ -176,6 +176,9 @@ def _p13d(ctx):
             for si, s in enumerate(n.stmts):
                 if s['k'] == 'assign' and s['pl']['p'] and isinstance(s['pl']['p'][-1], dict) and s['pl']['p'][-1].get('f') == 'tofree':
                     writes.append(x.rep(n.id))
+    # (a batch can also be handed over by moving the elements: `tofree.append(backlog)` / `extend(backlog.drain(..))`)
+    writes += [x.rep(n_) for n_ in x.ext_calls(r'Vec(::<.*>)?::(append|extend|push|insert|extend_from_slice)$|iter::Extend::extend$')
+               if any(p_.endswith('MemoryManagerInner.tofree') for p_ in g.locpaths(g.call_args(n_)[0]))]
     writes = sorted(set(writes))
     ctx.floor('P13d', len(writes), 1, 'installation of a new retired-object batch (MemoryManagerInner.tofree)')
     def _inner(sd):
@@ -198,7 +201,7 @@ def _p13d(ctx):
     for w in writes:
         ok = bool(done_edges) and x.dom(done_edges, w)
         ctx.add('P13d', 'T-GUARD', fn, ok, 'a new batch of retired objects is installed only when the previous cycle completed (completed epoch == current epoch / batch empty)' if ok else
-                'start_free can overwrite a pending batch of retired objects (the guard is not "completed epoch == current epoch"): the overwritten batch is dropped without being deleted and leaks',
+                'start_free can change the batch of a reclamation cycle that is still pending (not guarded by "completed epoch == current epoch"): an overwritten batch is dropped without being deleted and leaks, objects appended to it are freed with that cycle although handles that already announced its epoch may still use them (no grace period)',
                 where=g.where(w), sub='add_freeable')
 
 
@@ -235,7 +238,7 @@ def _w12(ctx):
     from rules_extra import signal_bits, _const_of
     bits = signal_bits(ctx)
     upd = callers_of(F, r'memory::MemoryManager::update_token$')
-    ctx.floor('W12', len(upd), 3, 'functions calling MemoryManager::update_token')
+    ctx.floor('W12', len(upd), 1, 'functions calling MemoryManager::update_token')
     for c in sorted(upd):
         if re.search(r'MemoryManager::remove_token$', c):
             ctx.add('W12', 'T-WHO', c, True, 'remove_token announces before it retires the token', sub='update_token')
@@ -397,13 +400,23 @@ def _p13(ctx):
                     if s[0] == 'fld' and s[2] == 'ReadCursor.last_pos':
                         src_ok = True
             head_cmp = False
+            ne_edges, cmp_sids = set(), set()
             for t_ in x.tests(('Eq',)):
                 l, r = t_.a, t_.b
                 # the range test compares the two raw position counts (same domain as head): no masking / arithmetic
                 if l[0] == 'call' and r[0] == 'call' and x.rep(l[1]) in x.atoms and x.rep(r[1]) in x.atoms and \
                         (x.atoms[x.rep(l[1])].on('MultiQueue.head/') or x.atoms[x.rep(r[1])].on('MultiQueue.head/')):
                     head_cmp = True
+                    ne_edges.update(t_.false)
+                    cmp_sids.update(x.same_site(t_.sid))
             ok = bool(dips) and src_ok and head_cmp and len(ops) == len(dips)
             ctx.add('P13c', 'T-GUARD', dq, ok, 'move-out teardown destroys the slots from last_pos up to head' if ok else
                     'move-out teardown: drop_in_place present=%s, starts at last_pos=%s, loop bounded by comparing the raw position count with head (unmasked)=%s, no other payload op=%s' % (bool(dips), src_ok, head_cmp, len(ops) == len(dips)),
                     flavour=fl, sub='mpmc')
+            # the loop runs while the counter differs from head, and every round moves the counter on by one
+            adv = [a for a in x.atoms.values() if a.op in WRITE_OPS and a.paths and all(p_.startswith('<call:') for p_ in a.paths) and a.nid == x.rep(a.nid)]
+            ok_a = bool(ne_edges) and all(x.dom(ne_edges, n) for n in dips)
+            ok_b = bool(adv) and all(x.must(n, {a.nid for a in adv}, exits=set(g.exits) | cmp_sids) for n in dips)
+            ctx.add('P13c', 'T-LOOP', dq, ok_a and ok_b, 'move-out teardown: a slot is destroyed only while the counter differs from head, and the counter advances after each' if ok_a and ok_b else
+                    'move-out teardown loop: body only on the "counter != head" edge=%s, counter advanced in every round=%s (values between last_pos and head are leaked, or one slot is destroyed over and over)' % (ok_a, ok_b),
+                    flavour=fl, sub='mpmc-loop')
